@@ -1,8 +1,117 @@
-import YouVerif.C15.Model
-namespace YouVerif.C15.Props
-open YouVerif.C15
+/-
+C15 — property theorems.  "Every EVM computational opcode computes its specified 256-bit function".
 
-set_option maxRecDepth 100000 in
-theorem table_has_256_entries : Gen.table.length = 256 := by decide
+`Gen.*` is regenerated from /repo on every check run (opcode bodies of core/vm/instructions.go, helpers of
+common/math, the live Istanbul jump table); `Spec.*` (ModelSpec.lean, ModelTableSpec.lean) is the Yellow-Paper
+specification; `step` (Model.lean) is the interpreter loop of core/vm/interpreter.go.
+-/
+import YouVerif.C15.ProofsStep
+namespace YouVerif.C15.Props
+open YouVerif.C15 YouVerif.C15.Proofs
+
+/-! ### 1. each translated opcode body computes the specified function, for ALL 256-bit operands
+(operands are passed as the interpreter holds them: non-negative integers below 2^256; first operand = top of stack) -/
+
+theorem opAdd_spec (x y : BitVec 256) : Gen.opAdd x.toNat y.toNat = (Spec.add x y).toNat := Proofs.opAdd_spec x y
+theorem opMul_spec (x y : BitVec 256) : Gen.opMul x.toNat y.toNat = (Spec.mul x y).toNat := Proofs.opMul_spec x y
+theorem opSub_spec (x y : BitVec 256) : Gen.opSub x.toNat y.toNat = (Spec.sub x y).toNat := Proofs.opSub_spec x y
+/-- division by zero gives 0 -/
+theorem opDiv_spec (x y : BitVec 256) : Gen.opDiv x.toNat y.toNat = (Spec.div x y).toNat := Proofs.opDiv_spec x y
+/-- division by zero gives 0; truncation towards zero; −2^255 / −1 = −2^255 -/
+theorem opSdiv_spec (x y : BitVec 256) : Gen.opSdiv x.toNat y.toNat = (Spec.sdiv x y).toNat := Proofs.opSdiv_spec x y
+theorem opMod_spec (x y : BitVec 256) : Gen.opMod x.toNat y.toNat = (Spec.mod x y).toNat := Proofs.opMod_spec x y
+/-- the result takes the sign of the dividend -/
+theorem opSmod_spec (x y : BitVec 256) : Gen.opSmod x.toNat y.toNat = (Spec.smod x y).toNat := Proofs.opSmod_spec x y
+theorem opAddmod_spec (x y m : BitVec 256) : Gen.opAddmod x.toNat y.toNat m.toNat = (Spec.addmod x y m).toNat :=
+  Proofs.opAddmod_spec x y m
+theorem opMulmod_spec (x y m : BitVec 256) : Gen.opMulmod x.toNat y.toNat m.toNat = (Spec.mulmod x y m).toNat :=
+  Proofs.opMulmod_spec x y m
+/-- the square-and-multiply loop over the machine words of the exponent computes `x ^ y mod 2^256` -/
+theorem opExp_spec (x y : BitVec 256) : Gen.opExp x.toNat y.toNat = (Spec.exp x y).toNat := Proofs.opExp_spec x y
+/-- index ≥ 31 leaves the value unchanged -/
+theorem opSignExtend_spec (b x : BitVec 256) : Gen.opSignExtend b.toNat x.toNat = (Spec.signextend b x).toNat :=
+  Proofs.opSignExtend_spec b x
+theorem opLt_spec (x y : BitVec 256) : Gen.opLt x.toNat y.toNat = (Spec.lt x y).toNat := Proofs.opLt_spec x y
+theorem opGt_spec (x y : BitVec 256) : Gen.opGt x.toNat y.toNat = (Spec.gt x y).toNat := Proofs.opGt_spec x y
+theorem opSlt_spec (x y : BitVec 256) : Gen.opSlt x.toNat y.toNat = (Spec.slt x y).toNat := Proofs.opSlt_spec x y
+theorem opSgt_spec (x y : BitVec 256) : Gen.opSgt x.toNat y.toNat = (Spec.sgt x y).toNat := Proofs.opSgt_spec x y
+theorem opEq_spec (x y : BitVec 256) : Gen.opEq x.toNat y.toNat = (Spec.eq x y).toNat := Proofs.opEq_spec x y
+theorem opIszero_spec (x : BitVec 256) : Gen.opIszero x.toNat = (Spec.iszero x).toNat := Proofs.opIszero_spec x
+theorem opAnd_spec (x y : BitVec 256) : Gen.opAnd x.toNat y.toNat = (Spec.and x y).toNat := Proofs.opAnd_spec x y
+theorem opOr_spec (x y : BitVec 256) : Gen.opOr x.toNat y.toNat = (Spec.or x y).toNat := Proofs.opOr_spec x y
+theorem opXor_spec (x y : BitVec 256) : Gen.opXor x.toNat y.toNat = (Spec.xor x y).toNat := Proofs.opXor_spec x y
+theorem opNot_spec (x : BitVec 256) : Gen.opNot x.toNat = (Spec.not x).toNat := Proofs.opNot_spec x
+/-- index ≥ 32 gives 0 -/
+theorem opByte_spec (i x : BitVec 256) : Gen.opByte i.toNat x.toNat = (Spec.byte i x).toNat := Proofs.opByte_spec i x
+/-- shifts ≥ 256 give 0 -/
+theorem opSHL_spec (s x : BitVec 256) : Gen.opSHL s.toNat x.toNat = (Spec.shl s x).toNat := Proofs.opSHL_spec s x
+theorem opSHR_spec (s x : BitVec 256) : Gen.opSHR s.toNat x.toNat = (Spec.shr s x).toNat := Proofs.opSHR_spec s x
+/-- shifts ≥ 256 give 0 or −1 by the sign -/
+theorem opSAR_spec (s x : BitVec 256) : Gen.opSAR s.toNat x.toNat = (Spec.sar s x).toNat := Proofs.opSAR_spec s x
+
+/-! ### 2. the jump table sends every computational opcode to the right function with the specified flags and fee -/
+
+/-- for every opcode of the computational groups the live table entry is exactly the expected one: valid,
+the specified static fee, δ operands required and room for one result, not halting/jumping/reverting/writing,
+no memory function, executed by the Go function the specification names -/
+theorem table_facts : ∀ op ∈ Spec.computational,
+    (Gen.table[op]?).map Spec.view = some (Spec.expectedView op) := Proofs.table_view
+
+/-- constant gas = the specified static fee (EXP: its fee, static part included, is charged by `gasExp`) -/
+theorem gas_table : ∀ op ∈ Spec.computational, op ≠ 0x0a →
+    (Gen.table[op]?).map (fun i => (i.constGas, i.dyn)) = some (Spec.staticGas op, Gen.DynGas.none) := by
+  intro op hop hne
+  obtain ⟨info, hinfo, hview⟩ := Option.map_eq_some_iff.1 (Proofs.table_view op hop)
+  simp only [Spec.view, Spec.expectedView, Spec.View.mk.injEq, hne, if_false] at hview
+  simp [hinfo, hview.2.1, hview.2.2.2.2.2.2.2.2.2.1]
+
+/-! ### 3. stack frame: on a stack of words the function named by the table consumes exactly its operands,
+leaves the specified result, and every other item is untouched; results are again words (in range) -/
+
+theorem stack_frame (op : Nat) (hop : op ∈ Spec.computational) (ws ws' : List (BitVec 256))
+    (happ : Spec.apply op ws = some ws') :
+    Gen.applyExec (Spec.execOf op) (enc ws) = some (enc ws') := Proofs.applyExec_spec op hop ws ws' happ
+
+/-- every item of an encoded stack — in particular every result — is in `[0, 2^256)` -/
+theorem result_in_range (ws : List (BitVec 256)) : ∀ v ∈ enc ws, 0 ≤ v ∧ v < 2 ^ 256 := by
+  intro v hv
+  simp only [enc, List.mem_map] at hv
+  obtain ⟨w, _, rfl⟩ := hv
+  have := w.isLt
+  omega
+
+/-! ### 4. the interpreter loop: one step on a computational opcode, anywhere in any program -/
+
+/-- With `ws` on the stack (at most 1024 items), enough operands and at least the specified gas, one iteration
+of the interpreter loop on a computational opcode replaces the operands by the specified result, leaves the
+rest of the stack, memory, storage and refund counter untouched, charges exactly the specified gas
+(static fee; EXP: 10 + 50 per exponent byte) and advances the program counter by one. -/
+theorem computational_step (code : Array Byte) (s : VM) (op : Nat) (ws ws' : List (BitVec 256))
+    (hop : op ∈ Spec.computational) (hcode : (code.getD s.pc 0).toNat = op)
+    (hstack : s.stack = enc ws) (hlen : ws.length ≤ 1024)
+    (happ : Spec.apply op ws = some ws') (hgas : Spec.gas op ws ≤ s.gas) :
+    step code s = .next { s with stack := enc ws', gas := s.gas - Spec.gas op ws, pc := s.pc + 1 } :=
+  Proofs.computational_step code s op ws ws' hop hcode hstack hlen happ hgas
+
+/-! ### non-vacuity and test vectors (tests on literals, by evaluation) -/
+
+example : Spec.apply 0x05 [BitVec.ofInt 256 (-2^255), BitVec.ofInt 256 (-1)] = some [BitVec.ofInt 256 (-2^255)] := by decide
+example : Spec.apply 0x07 [BitVec.ofInt 256 (-8), BitVec.ofInt 256 3] = some [BitVec.ofInt 256 (-2)] := by decide
+example : Spec.apply 0x04 [5, 0] = some [0] := by decide
+example : Spec.signextend 0 0xff = BitVec.ofInt 256 (-1) := by decide
+example : Spec.signextend 0 0x7f = 0x7f := by decide
+example : Spec.signextend 31 0xff = 0xff := by decide
+example : Spec.byte 31 0x1234 = 0x34 := by decide
+example : Spec.byte 32 0x1234 = 0 := by decide
+example : Spec.shl 256 1 = 0 := by decide
+example : Spec.shl 255 1 = BitVec.ofNat 256 (2^255) := by decide
+example : Spec.sar 300 (BitVec.ofInt 256 (-5)) = BitVec.ofInt 256 (-1) := by decide
+example : Spec.sar 1 (BitVec.ofInt 256 (-5)) = BitVec.ofInt 256 (-3) := by decide
+example : Gen.opExp 3 300 = (3 ^ 300 : Int) % 2 ^ 256 := by decide
+example : Gen.opSdiv (2^255) (2^256 - 1) = 2^255 := by decide
+/-- the hypotheses of `computational_step` are satisfiable: `PUSH1 5 PUSH1 7 ADD` after two steps -/
+example : step #[0x60, 5, 0x60, 7, 0x01] { stack := enc [7, 5], gas := 10, pc := 4 } =
+    .next { stack := enc [12], gas := 7, pc := 5 } :=
+  computational_step _ _ 0x01 [7, 5] [12] (by decide) (by decide) rfl (by decide) (by decide) (by decide)
 
 end YouVerif.C15.Props
